@@ -452,6 +452,11 @@ def check(pid, argv=None):
             t1 = time.time()
             layoutmc.model_level(run, pid)
             run.notes["t_model_level"] = round(time.time() - t1, 1)
+        if pid == "C05":
+            from . import observe
+            t1 = time.time()
+            observe.observe(run)
+            run.notes["t_observe_repo_tests"] = round(time.time() - t1, 1)
         n = COUNTS[run.tier]
         t1 = time.time()
         hists = [make_history(pid, run.seed, i) for i in range(n)]
